@@ -1,4 +1,5 @@
 import MesaModel.Model.Devs
+import MesaModel.Model.DevsLife
 import MesaModel.Model.Heap
 /-!
 Line-protocol driver for the Devs model (C14, C15, C18-devs).
@@ -7,7 +8,9 @@ One output line per input line.  See harness/c14.py for the producer.
   scenario devs|abm         reset
   prog a cmd ; cmd ; …      define program a        (cmd: abs t p a | rel d p a | again c d p | cancel k | drop c | halt | raise Index|Value|Key)
   stepprog cmd ; …          define the user's step body
-  setup | reset              (reset = Simulator.reset() followed by a fresh model: back to `init`)
+  setup | reset              (reset = Simulator.reset() followed by a fresh model: back to `init`, no model attached)
+                             lifecycle (Model/DevsLife.lean): `setup` answers `err NotAtStart` / `err HasEvents` when the guards of
+                             Simulator.setup refuse it; until / for / next answer `err NotSetup` while no model is attached
   abs t p a | rel d p a | cancel k | drop c
   again c d p                schedule_event_relative once more with the callable object c (`ok none`: the program no longer holds it)
   until T | for d | next | peek n | len
@@ -55,8 +58,14 @@ def fmtErr : Err → String
   | .past => "err Past"
   | .unit => "err Unit"
 
+def fmtLErr : LErr → String
+  | .notSetup => "err NotSetup"
+  | .notAtStart => "err NotAtStart"
+  | .hasEvents => "err HasEvents"
+
 structure St where
   sim : Sim
+  up : Bool := false        -- `simulator.model is not None` (Model/DevsLife.lean)
   progs : List (Nat × List Cmd)
   heap : List Ev := []      -- `scenario heap`: the heapq transcription on its own (hpush / hpop), array layout observed
 
@@ -70,12 +79,12 @@ def stepLine (st : St) (ws : List String) : St × String :=
   | ["scenario", k] =>
       match (if k = "abm" then some Kind.abm else if k = "devs" then some Kind.devs else none) with
       | none => (st, "bad-op")
-      | some kd => ({ sim := init kd (St.look []) [], progs := [], heap := [] }, "ok")
+      | some kd => ({ sim := init kd (St.look []) [], up := false, progs := [], heap := [] }, "ok")
   | "prog" :: a :: rest =>
       match a.toNat?, parseProg rest with
       | some a, some cmds =>
         let ps := (a, cmds) :: st.progs
-        ({ sim := { s with prog := St.look ps }, progs := ps }, "ok")
+        ({ st with sim := { s with prog := St.look ps }, progs := ps, heap := [] }, "ok")
       | _, _ => (st, "bad-op")
   | "stepprog" :: rest =>
       match parseProg rest with
@@ -96,23 +105,33 @@ def stepLine (st : St) (ws : List String) : St × String :=
         -- ids stay unique: remember how many were handed out in `nextId`
         ({ st with heap := h, sim := { s with nextId := s.nextId + 1 } },
          s!"ok {m.time},{m.prio},{m.id} | " ++ " ".intercalate (h.map fun e => s!"{e.time},{e.prio},{e.id}"))
-  | ["setup"] => ({ st with sim := setup s }, "ok")
-  | ["reset"] => ({ st with sim := init s.kind s.prog s.stepProg }, "ok")   -- Simulator.reset + a fresh model
+  | ["setup"] =>
+      match (Life.mk st.up s).setup with
+      | .ok l => ({ st with sim := l.sim, up := l.up }, "ok")
+      | .error e => (st, fmtLErr e)
+  | ["reset"] =>   -- Simulator.reset + a fresh model
+      let l := (Life.mk st.up s).reset
+      ({ st with sim := l.sim, up := l.up }, "ok")
   | ["until", t] =>
       match t.toInt? with
       | none => (st, "bad-op")
       | some T =>
-        match runUntil fuel s T with
-        | none => (st, "err Fuel")
-        | some s' => ({ st with sim := caught s' }, fmtRun s s')
+        match (Life.mk st.up s).runUntil fuel T with
+        | .error e => (st, fmtLErr e)
+        | .ok none => (st, "err Fuel")
+        | .ok (some l) => ({ st with sim := caught l.sim }, fmtRun s l.sim)
   | ["for", d] =>
       match d.toInt? with
       | none => (st, "bad-op")
       | some d =>
-        match runFor fuel s d with
-        | none => (st, "err Fuel")
-        | some s' => ({ st with sim := caught s' }, fmtRun s s')
-  | ["next"] => let s' := runNext s; ({ st with sim := caught s' }, fmtRun s s')
+        match (Life.mk st.up s).runFor fuel d with
+        | .error e => (st, fmtLErr e)
+        | .ok none => (st, "err Fuel")
+        | .ok (some l) => ({ st with sim := caught l.sim }, fmtRun s l.sim)
+  | ["next"] =>
+      match (Life.mk st.up s).runNext with
+      | .error e => (st, fmtLErr e)
+      | .ok l => ({ st with sim := caught l.sim }, fmtRun s l.sim)
   | ["len"] => (st, s!"ok len={s.pending.length}")   -- len(event_list): cancelled events stay until popped
   | ["peek", n] =>
       match n.toNat? with
